@@ -10,7 +10,7 @@ import copy
 import numpy as np
 
 from ..core import violation, Discard
-from ..gen_scenes import gen_chain_scene, gen_contact_scene, add_knife_edge, rotate_contact_scene
+from ..gen_scenes import gen_chain_scene, gen_contact_scene, add_knife_edge, rotate_contact_scene, gen_arm_on_floor_scene
 from .. import rot
 from ..scenes import build
 from ..seams import Sim
@@ -57,7 +57,11 @@ def ic_options():
 
 def gen(rng, tier, index):
     fam = ["chain", "contact", "chain", "contact", "chain_actuated"][index % 5]
-    if fam == "contact":
+    if fam == "chain_actuated" and (index // 5) % 2 == 1:
+        fam = "arm_on_floor"
+    if fam == "arm_on_floor":
+        scene = gen_arm_on_floor_scene(rng)
+    elif fam == "contact":
         scene = gen_contact_scene(rng, nspheres=int(rng.integers(1, 4)))
     elif fam == "chain_actuated":
         scene = gen_chain_scene(rng, nbodies=int(rng.integers(1, 3)), joints=["revolute"], rigid_only=True, allow_loop=False)
@@ -69,20 +73,22 @@ def gen(rng, tier, index):
     mode = str(rng.choice(["initial", "reached"]))
     k = int(rng.integers(3, 40))
     dt = float(10 ** rng.uniform(-3, -2.2))
-    solver = gen_solver(rng, "Rattle", k, dt, tight=True, buggify=False, contacts=(fam == "contact"))
+    solver = gen_solver(rng, "Rattle", k, dt, tight=True, buggify=False, contacts=(fam in ("contact", "arm_on_floor")))
     corrupt = None
     if rng.random() < 0.5:
-        kinds = ["pen", "approach", "vel"] if fam == "contact" else ["vel", "pos", "pos_point"]
+        kinds = ["pen", "approach", "vel"] if fam in ("contact", "arm_on_floor") else ["vel", "pos", "pos_point"]
         corrupt = {"kind": str(rng.choice(kinds)), "pick": int(rng.integers(100)), "dir": rng.normal(size=3).tolist(), "size": float(10 ** rng.uniform(-4, -1))}
     plan = {"scene": scene, "family": fam, "mode": mode, "solver": solver, "corrupt": corrupt, "via": str(rng.choice(["build", "set_new_initial_state"]))}
-    if fam == "contact" and rng.random() < 0.5:
+    if fam in ("contact", "arm_on_floor") and rng.random() < 0.5:
         # fault F2 at the initial-condition fixed point: forced (hook) or organic (tiny iteration budget), with the
         # legal option continue_with_unconverged on or off
         plan["ic_fault"] = {"how": str(rng.choice(["forced", "budget"])), "continue": bool(rng.random() < 0.6), "max_iter": int(rng.integers(1, 4))}
     if fam == "contact" and rng.random() < 0.5:
         # the whole scene rigidly moved: floors become walls and ceilings, gravity points anywhere
         rotate_contact_scene(scene, rot.rand_quat(rng), rng.uniform(-1, 1, 3))
-    if fam != "contact":
+    if rng.random() < 0.3:
+        scene["t0"] = float(np.round(rng.uniform(-3.0, 8.0), 3))  # the time origin is arbitrary
+    if fam not in ("contact", "arm_on_floor"):
         add_knife_edge(rng, scene, prob=0.3)  # velocity-level constraint: gamma_dot(u_dot0) = 0 and W_gamma la_gamma0 in the monitor
     return plan
 
@@ -128,6 +134,8 @@ def monitor_ic(B, out, tag):
         out["probes"]["compliance_present"] += 1
     if s.nla_tau:
         out["probes"]["actuator_present"] += 1
+        if s.nla_N and np.any(np.abs(s.g_N(t, q)) <= 1e-8):
+            out["probes"]["actuator_with_closed_contact"] += 1
     if s.nla_gamma:
         out["probes"]["velocity_level_constraint_present"] += 1
     # ---- contacts
